@@ -76,6 +76,9 @@ class Check(AddCheck):
         yield from gens.merge_cases_story(n_max=n_max, max_src=2, layouts=['plain', 'between'])
         yield from gens.merge_cases_item(n_max=n_max, max_src=2, para_layouts=['none', 'between'])
         yield from gens.merge_cases_other()
+        # roMetadataReplace in all its shapes (repeated / schema-less blocks, non-metadata children in k-th position)
+        from checks.c03 import metadata_cases
+        yield from metadata_cases(rng)
         # malformed but parseable messages: each message of a representative set with any one element removed, against a
         # running order in which its references resolve (a raise at any point must leave the running order as it was)
         from checks.base import drop_variants
